@@ -432,6 +432,26 @@ pub fn single_layer_entries() -> Vec<Entry> {
             res!(w, n, Ipv6Header::skip_header_extension(&mut c, IpNumber(start)), |p| w.d(n, p));
             w.d(&format!("{n}.pos"), c.position());
         }));
+        // the same two with a reader that does not stand at stream position 0 (7 bytes of another
+        // record in front): a decoder that skips with Seek has to do so relative to where it is
+        let n = leak(format!("Ipv6Header::skip_all_header_extensions({})@7", start));
+        v.push(e(n, move |w, b| {
+            let mut data = vec![0x00u8, 0x00, 0x2c, 0x00, 0x33, 0x01, 0x3c];
+            data.extend_from_slice(b);
+            let mut c = Cursor::new(&data[..]);
+            c.set_position(7);
+            res!(w, n, Ipv6Header::skip_all_header_extensions(&mut c, IpNumber(start)), |p| w.d(n, p));
+            w.d(&format!("{n}.pos"), c.position());
+        }));
+        let n = leak(format!("Ipv6Header::skip_header_extension({})@7", start));
+        v.push(e(n, move |w, b| {
+            let mut data = vec![0x00u8, 0x00, 0x2c, 0x00, 0x33, 0x01, 0x3c];
+            data.extend_from_slice(b);
+            let mut c = Cursor::new(&data[..]);
+            c.set_position(7);
+            res!(w, n, Ipv6Header::skip_header_extension(&mut c, IpNumber(start)), |p| w.d(n, p));
+            w.d(&format!("{n}.pos"), c.position());
+        }));
     }
     for start in [51u8, 17] {
         let n = leak(format!("Ipv4ExtensionsSlice::from_slice({})", start));
